@@ -220,6 +220,8 @@ func (r *SwitchRouter) EnumerateTemplates(localization flows.Localization, inclu
 	include(i18n.NilLanguage, r.operand)
 
 	inspect.Templates(r.cases, localization, include)
+
+	r.baseRouter.EnumerateTemplates(localization, include)
 }
 
 // EnumerateDependencies enumerates all dependencies on this object and its children
